@@ -46,6 +46,7 @@ var apiFiles = []treeFile{
 	{Name: "bad-in-each-else", Src: "PARTIAL-OUTPUT-MARKER @each(x in [])never@else in else {{ items[0] / 0 }}@end after"},
 	{Name: "bad-in-for-else", Src: "PARTIAL-OUTPUT-MARKER @for(i = 0; i < 0; i++)never@else in else {{ items[0] / 0 }}@end after"},
 	{Name: "bad-lt", Src: "PARTIAL-OUTPUT-MARKER {{ 1 < \"a&b\" }} after"}, // a message with < and quotes in it
+	{Name: "bad-in-assign", Src: "PARTIAL-OUTPUT-MARKER {{ q = items[0] / 0 }} the value is never read"},
 	{Name: "bad-in-array", Src: "PARTIAL-OUTPUT-MARKER {{ [who, who, items[0] / 0] }} after"},
 	{Name: "bad-in-args", Src: "PARTIAL-OUTPUT-MARKER {{ [who].append(who, items[0] / 0).join(\"-\") }} after"},
 	// (one key only: the printed form of a loaded program, which the state snapshots compare, lists the keys of an
@@ -57,6 +58,8 @@ var apiFiles = []treeFile{
 	{Name: "row2", Src: "row:{{ r.name }}{{ r.count }}"},
 	{Name: "components/whoami", Src: "{{ who }}/{{ items.len() }}"},
 	{Name: "static", Src: "<p>@component(\"~whoami\")</p><i>@component(\"~whoami\")</i>"},
+	{Name: "layouts/nested", Src: "@use(\"~main\")<n>@reserve(\"content\")</n>"},
+	{Name: "nested-use", Src: "@use(\"~nested\")@insert(\"content\")a layout that uses a layout@end"},
 	{Name: "poly", Src: "poly:{{ v.len() }}|{{ v }}|@if(v){{ v.len() }}@end"},
 }
 
